@@ -27,9 +27,79 @@ EPS = 1e-6
 
 
 def plan(tier, seed):
+    real = [{"kind": "realsock", "tier": tier, "seed": seed, "shard": 100 + i, "n": 3 if tier == "quick" else 12, "subprocess": True} for i in range(1 if tier == "quick" else 2)]
     if tier == "quick":
-        return [{"tier": tier, "seed": seed, "shard": i, "n": 6, "subprocess": True} for i in range(12)]
-    return [{"tier": tier, "seed": seed, "shard": i, "n": 350, "subprocess": True} for i in range(32)]
+        return [{"tier": tier, "seed": seed, "shard": i, "n": 6, "subprocess": True} for i in range(12)] + real
+    return [{"tier": tier, "seed": seed, "shard": i, "n": 350, "subprocess": True} for i in range(32)] + real
+
+
+def run_realsock(cfg, out):
+    """the real UdpClient on a real OS socket, real clocks: connect attempts to loopback ports where nobody listens (the kernel
+    answers those with ICMP port-unreachable, which a socket may or may not get to see).  Real time decides nothing by itself:
+    the verdicts are 'update() raised', 'the callback was called other than once with False' and 'no end after 20x the configured
+    timeout on the client's own clock'."""
+    import socket
+    import time
+    import logging
+    from mpgameserver import UdpClient, EllipticCurvePrivateKey
+    logging.getLogger("mpgameserver").setLevel(100)
+    c = out["counters"]
+    r = rng("C12real", cfg["seed"], cfg["shard"])
+
+    def viol(mech, msg, case):
+        c.inc("viol:" + mech)
+        if sum(1 for v in out["violations"] if v["mechanism"] == mech) < 3:
+            out["violations"].append({"mechanism": mech, "msg": msg, "case_key": [cfg["seed"], cfg["shard"], case], "case": {"kind": "realsock"}})
+    pub = EllipticCurvePrivateKey.new().getPublicKey()
+    for case in range(cfg["n"]):
+        host, fam = (("127.0.0.1", socket.AF_INET), ("127.0.0.1", socket.AF_INET), ("::1", socket.AF_INET6))[case % 3]
+        try:
+            s_ = socket.socket(fam, socket.SOCK_DGRAM)
+            s_.bind((host, 0))
+            port = s_.getsockname()[1]
+            s_.close()                       # nobody listens there now
+        except OSError:
+            c.inc("realsock_family_unavailable")
+            continue
+        timeout = r.choice([0.3, 0.5, 0.8])
+        cl = UdpClient(pub if case % 2 else None)
+        cl.setConnectionTimeout(timeout)
+        calls = []
+        with_cb = case % 4 != 3
+        try:
+            cl.connect((host, port), callback=(lambda ok: calls.append(ok)) if with_cb else None)
+        except Exception as e:
+            viol("connect-raised", "UdpClient.connect(%r) to a port nobody listens on raised %r" % ((host, port), e), case)
+            continue
+        c.inc("realsock_connect_attempts")
+        raised = None
+        t0 = time.monotonic()
+        while time.monotonic() - t0 < 20 * timeout + 5.0:
+            try:
+                cl.update()
+                c.inc("realsock_updates")
+            except Exception as e:
+                raised = e
+                break
+            if cl.conn is None or getattr(cl.conn.status, "value", 0) in (3, 4, 5) and time.monotonic() - t0 > timeout + 0.3:
+                break
+            time.sleep(1 / 120)
+        st = {1: "CONNECTING", 2: "CONNECTED", 3: "DISCONNECTING", 4: "DISCONNECTED", 5: "DROPPED"}.get(getattr(cl.conn.status, "value", None)) if cl.conn is not None else None
+        if raised is not None:
+            viol("client-update-raised-on-unanswered-connect", "UdpClient.update() raised %r %.2fs into a connect attempt to %s port %d where nobody listens (real socket)" % (
+                raised, time.monotonic() - t0, host, port), case)
+        elif st != "DISCONNECTED":
+            viol("unanswered-connect-not-ended", "real socket, nobody listening: status %s after %.1fs (connect timeout %.1fs)" % (st, time.monotonic() - t0, timeout), case)
+        elif with_cb and calls != [False]:
+            viol("connect-callback-history", "real socket, nobody listening: connect callback history %r (expected [False])" % (calls,), case)
+        else:
+            c.inc("realsock_unanswered_connects_ended_properly")
+            c.inc("k4_unanswered_connects")
+        try:
+            cl.forceDisconnect() if hasattr(cl, "forceDisconnect") else None
+        except Exception:
+            pass
+        out["distinct"].add(h64("realsock", host, timeout, with_cb))
 
 
 def pick_config(r, case):
@@ -443,6 +513,10 @@ def run_case(cfg_shard, case, out):
 
 def run_shard(cfg):
     out = {"violations": [], "counters": Counter(), "samples": [], "distinct": set()}
+    if cfg.get("kind") == "realsock":
+        run_realsock(cfg, out)
+        c = out["counters"]
+        return {"evaluations": c.get("realsock_connect_attempts", 0), "distinct": sorted(out["distinct"]), "counters": dict(c), "violations": out["violations"], "samples": out["samples"]}
     for case in range(cfg["n"]):
         if cfg.get("only_case") and cfg["only_case"] != [cfg["seed"], cfg["shard"], case]:
             continue
@@ -461,7 +535,7 @@ def finish(tier, seed, results):
                          "setter_connect_timeout_after", "setter_message_timeout_before", "setter_message_timeout_after", "k5_keep_alive_lowered_mid_idle",
                          "k5_keep_alive_lowered_in_window", "k1_one_directional_streams", "k1_quiet_side_within_bound",
                          "same_ip_second_client_connected", "k4_reconnect_after_dropped_in_window", "k4_reconnect_after_heal_connected",
-                         "k5_settings_in_force_in_second_session", "worlds_configured_after_server_construction", "k3_worlds_with_replays_during_the_cut", "k3_worlds_with_slow_client_updates", "k2_lazy_reader_streams"], inconclusive)
+                         "k5_settings_in_force_in_second_session", "worlds_configured_after_server_construction", "k3_worlds_with_replays_during_the_cut", "k3_worlds_with_slow_client_updates", "k2_lazy_reader_streams", "realsock_unanswered_connects_ended_properly"], inconclusive)
     cov = {
         "evaluations": m["evaluations"],
         "distinct_nontrivial": m["distinct_nontrivial"],
